@@ -300,7 +300,7 @@ func c14Native(w *lib.Worker) {
 	}
 	ch := make(chan res, 16)
 	n := 0
-	for _, body := range []string{"", "x=1"} {
+	for _, body := range []string{"", "x=1", "for(;;)", "for(;;)x=1", "do-while"} {
 		for _, context := range []string{"run", "action"} {
 			for attempt := 0; attempt < 3; attempt++ {
 				n++
@@ -346,10 +346,24 @@ func c14Native(w *lib.Worker) {
 		if body == "" {
 			sig = "C14/" + context + "/empty-body-busy-loop-never-polls-the-interrupt"
 		}
+		if body == "for(;;)" {
+			sig = "C14/" + context + "/for-loop-without-test-and-body-never-polls-the-interrupt"
+		}
 		w.Violation(lib.Violation{Scenario: "native-busy-loop", Signature: sig,
-			Summary: fmt.Sprintf("[%s] `while(true){%s}` with a 50ms JavaScript timeout: the call had not returned after 20s in 3 isolated runs", context, body),
+			Summary: fmt.Sprintf("[%s] `%s` with a 50ms JavaScript timeout: the call had not returned after 20s in 3 isolated runs", context, c14LoopCode(body)),
 			Replay:  map[string]interface{}{"native": true, "context": context, "body": body}})
 	}
+}
+
+// c14LoopCode renders a member of the busy-loop family.
+func c14LoopCode(body string) string {
+	switch {
+	case body == "do-while":
+		return "do{}while(true)"
+	case strings.HasPrefix(body, "for(;;)"):
+		return "for(;;){" + strings.TrimPrefix(body, "for(;;)") + "}"
+	}
+	return "while(true){" + body + "}"
 }
 
 func c14NativeChild(spec string) {
@@ -359,7 +373,7 @@ func c14NativeChild(spec string) {
 	core.SystemParameters.DefaultJavascriptTimeout = 50 * time.Millisecond
 	ctx := lib.Ctx()
 	loc := lib.MustLoc(ctx, "indexed", "L", lib.MemStore(ctx))
-	code := "while(true){" + body + "}"
+	code := c14LoopCode(body)
 	if context == "run" {
 		loc.RunJavascript(ctx, code, nil, nil, nil)
 	} else {
